@@ -126,6 +126,17 @@ void buildSeeds(bool thorough)
 			if (d == 8 && w == 32) gConstructed[1].push_back(m);     // also through the tileset loader (32 wide, 8 bit, height multiple of 32 for j = 0, 32)
 		}
 	}
+	// tilesets stored as standard bitmaps that declare fewer used colours than 256 (consistent files: short colour table,
+	// pixel offset and file size adjusted): the loaded object keeps a short palette, every way of saving it must be safe
+	for (uint32_t n : { 1u, 2u, 16u, 255u }) for (int32_t h : { int32_t(32), int32_t(-64) }) {
+		ref::RBmp b; b.depth = 8; b.width = 32; b.height = h; b.usedColors = n;
+		for (uint32_t i = 0; i < n; ++i) b.palette.push_back({ uint8_t(i), uint8_t(i * 3), uint8_t(255 - i), 0 });
+		b.rows.assign(std::size_t(32) * std::size_t(h < 0 ? -h : h), 0);
+		mc::Mutant m; m.bytes = ref::encodeBmp(b);
+		m.desc = "constructed tileset as standard bitmap 32x" + std::to_string(h) + " declaring " + std::to_string(n) + " used colours (short colour table)";
+		gConstructed[1].push_back(m);
+		gConstructed[0].push_back(m);
+	}
 	{
 		// a valid custom tileset without rows
 		ref::RPicture p0; p0.height = 0; for (int i = 0; i < 256; ++i) p0.palette.push_back({ uint8_t(i), 2, 3, 0 });
@@ -143,6 +154,20 @@ void buildSeeds(bool thorough)
 			mc::set32(m.bytes, m.bytes.size() - 4, 32u * hf);
 			m.desc = "constructed custom tileset height field " + std::to_string(hf) + " depth field " + std::to_string(depth) + " pixel length " + std::to_string(32u * hf) + " (32*h mod 2^32)";
 			gConstructed[1].push_back(m);
+		}
+	}
+	{
+		// PRT files whose image table refers to palettes that are not there: no palettes at all, or an index one past the last
+		std::vector<int> z(prtc::kDims, 0);
+		for (int palettes : { 0, 1, 2 }) for (uint16_t idx : { uint16_t(0), uint16_t(1), uint16_t(2), uint16_t(0xFFFF) }) {
+			ref::RPrt r = prtc::makePrt(z);
+			while (int(r.palettes.size()) > palettes) r.palettes.pop_back();
+			while (int(r.palettes.size()) < palettes) r.palettes.push_back(r.palettes.empty() ? std::array<ref::RColor, 256>() : r.palettes[0]);
+			if (r.images.empty()) { ref::RImage im; im.width = 4; im.scanLine = 4; im.height = 2; r.images.push_back(im); }
+			r.images[0].paletteIndex = idx;
+			mc::Mutant m; m.bytes = ref::encodePrt(r);
+			m.desc = "constructed prt with " + std::to_string(palettes) + " palettes and an image using palette index " + std::to_string(idx);
+			gConstructed[2].push_back(m);
 		}
 	}
 	{
